@@ -19,11 +19,11 @@ def tee(maxseq=2, **kw):
                         'A': dict(srcs=[src('S')]), 'B': dict(srcs=[src('S')])}, maxseq=maxseq, **kw)
 
 
-def tee_rejoin2(maxseq=2, skip=(1,), slowB=False, explicit_b=False, **kw):
+def tee_rejoin2(maxseq=2, skip=(1,), slowB=False, explicit_b=False, skipA=(), **kw):
     """S -> A -> K(main>a) and S -> B -> K; B may skip ids (the C01 scenarios)"""
     return Topo('TeeRejoin2', {
         'S': dict(nout=1, beh=beh('origin', tseq=[['main']])),
-        'A': dict(srcs=[src('S')], nout=1),
+        'A': dict(srcs=[src('S')], nout=1, beh=beh('relay', skip=skipA)),
         'B': dict(srcs=[src('S')], nout=1, beh=beh('relay', skip=skip, slow=slowB)),
         'K': dict(srcs=[src('A', topics=[('main', 'a')]), src('B', topics=[('main', 'main')] if explicit_b else None)]),
     }, maxseq=maxseq, **kw)
